@@ -219,6 +219,8 @@ func runC07(c *an.Ctx) {
 	r026(c, "R07.3")
 	r074(c)
 	c.Min("R07.4", 3)
+	r076(c)
+	r061as(c, "R07.5") // the projection used by every read never writes (or shares parts of) the message it is given
 	c.Min("R07.1", 60)
 	c.Min("R07.2", 4)
 	c.Min("R07.3", 2)
@@ -450,4 +452,87 @@ func r074(c *an.Ctx) {
 	if n == 0 {
 		c.Unk(rule, "module|InterceptAfter literals", 0, "no InterceptAfter callback found")
 	}
+}
+
+// r076: a message that is already published (obtained from a resource read or an event) must not be handed to a
+// write whose InterceptBefore callback modifies its `new` argument: InterceptBefore receives the very message the
+// caller passed in, so the callback would edit stored state / earlier results in place.
+func r076(c *an.Ctx) {
+	const rule = "R07.6"
+	w := publishedWorld(c)
+	n := 0
+	for _, fn := range e2Scope(c) {
+		var writers []*ssa.Function
+		for _, call := range an.CallsTo(fn, an.ModulePath+"/pkg/resource.InterceptBefore") {
+			g := an.ClosureFn(call.Common().Args[0])
+			if g == nil || len(g.Params) < 2 {
+				continue
+			}
+			if len(w.AnalyseParams(g, g.Params[1])) > 0 {
+				writers = append(writers, g)
+			}
+		}
+		if len(writers) == 0 {
+			continue
+		}
+		_, taint := w.Analyse(fn)
+		an.Instrs(fn, func(in ssa.Instruction) {
+			call, ok := in.(*ssa.Call)
+			if !ok || call.Call.IsInvoke() || !call.Call.Signature().Variadic() {
+				return
+			}
+			// the message argument of a write: a proto message (pointer) among the non-variadic arguments
+			for i, a := range call.Call.Args {
+				if i == len(call.Call.Args)-1 {
+					break
+				}
+				if !isPointer(a.Type()) && !strings.Contains(a.Type().String(), "proto.Message") && !strings.Contains(a.Type().String(), "ProtoMessage") {
+					continue
+				}
+				// is one of the modifying interceptors among this call's options?
+				usesWriter := false
+				last := call.Call.Args[len(call.Call.Args)-1]
+				an.Instrs(fn, func(x ssa.Instruction) {
+					st, isSt := x.(*ssa.Store)
+					if !isSt {
+						return
+					}
+					ia, isIA := st.Addr.(*ssa.IndexAddr)
+					if !isIA {
+						return
+					}
+					for _, src := range an.Sources(last) {
+						if sl, isSl := src.(*ssa.Slice); isSl && sl.X == ia.X {
+							for _, vs := range an.Sources(st.Val) {
+								if ib, isCall := vs.(*ssa.Call); isCall && an.CalleeName(ib) == an.ModulePath+"/pkg/resource.InterceptBefore" {
+									if g := an.ClosureFn(ib.Call.Args[0]); g != nil {
+										for _, wg := range writers {
+											if wg == g {
+												usesWriter = true
+											}
+										}
+									}
+								}
+							}
+						}
+					}
+				})
+				if !usesWriter {
+					continue
+				}
+				n++
+				cons := fmt.Sprintf("%s|the message handed to a write with a modifying InterceptBefore is not a published one", an.FuncName(fn))
+				c.SawFunc(an.FuncName(fn))
+				published := taint[a]&an.TSelf != 0
+				for _, src := range an.Sources(a) {
+					if taint[src]&an.TSelf != 0 {
+						published = true
+					}
+				}
+				c.Check(!published, rule, cons, call.Pos(), "",
+					"the message passed to this write was obtained from a resource read (it is stored state / an earlier result), and the write's InterceptBefore callback modifies its `new` argument - which is that very message: stored state and every snapshot handed out earlier change without a write or an event")
+			}
+		})
+	}
+	c.Count("writes_with_modifying_interceptBefore", n)
 }
